@@ -157,7 +157,12 @@ def build(scn, variant, seed):
     if len(stub) > 1000:
         return None
     nonce = bytes(rng.randrange(1, 255) for _ in range(4))
-    data = xorenc.stage(bytes(stub), nonce, bytes(img))
+    # (a stage may be followed by bytes that do not belong to it: then only the end-of-stub marker identifies it)
+    trailing = bytes(rng.randrange(256) for _ in range(rng.choice([1, 5, 300]))) if (variant.get("trailing") and pc != "end") else b""
+    data = xorenc.stage(bytes(stub), nonce, bytes(img), trailing)
+    if trailing:
+        # the decoded view then continues with whatever the trailing bytes decode to
+        return dict(data=data, planted=planted, decoded=xorenc.decode(data[len(stub) + 8 :], nonce), nonce_offset=len(stub), ua=uaset)
     return dict(data=data, planted=planted, decoded=bytes(img), nonce_offset=len(stub), ua=uaset)
 
 
@@ -213,6 +218,8 @@ def one(args):
                     o = core.guarded(beacon.BeaconConfig.from_path, p, seconds=120, **kw)
                 else:
                     with open(p, "rb") as fh:
+                        if variant.get("prepos"):
+                            fh.read(777)  # the caller has looked at the file before: extraction starts from the beginning anyway
                         o = core.guarded(beacon.BeaconConfig.from_file, fh, seconds=120, **kw)
             finally:
                 os.unlink(p)
@@ -272,6 +279,8 @@ CHECK_DEADLOCK FALSE
             "filler": fills[(i // 5) % 4],
             "long": (i % 7 == 3),
             "ua": (i % 5 == 2),
+            "trailing": (i % 4 == 1),
+            "prepos": (i % 3 == 1),
             "second_boundary": (i % 4 == 1),
             "default_as_none": (i % 2 == 0),
         }
